@@ -3,9 +3,11 @@ package rules
 import (
 	"fmt"
 	"go/ast"
+	"go/constant"
 	"go/token"
 	"go/types"
 	"strings"
+	"unicode"
 
 	"golang.org/x/tools/go/ssa"
 
@@ -566,5 +568,61 @@ func ROr20(c *core.Ctx) {
 	}
 	if n == 0 {
 		c.Anchor("an equality of two values OR-ed with 0x20")
+	}
+}
+
+// ---------------------------------------------------------------------------
+// R-CATIDENT: a decision about "which Unicode category is this" is made on the
+// table, not on the spelling.  unicodeCategories registers every alias of
+// unicode.CategoryAliases (Lowercase_Letter, Uppercase_Letter, …) as a key of
+// its own pointing at the same table, and canonicalUnicodeCatName returns such
+// a key unchanged.  Comparing the name with "Ll" / "Lu" / "Lt" therefore
+// misses the long spellings: (?i)\p{Lowercase_Letter} is not broadened to the
+// other cases although (?i)\p{Ll} is.
+// ---------------------------------------------------------------------------
+
+func RCatIdent(c *core.Ctx) {
+	c.Rule("R-CATIDENT", "in package syntax no string comparison of a Unicode category name with a literal that has aliases in unicode.CategoryAliases (Ll, Lu, Lt, …) decides behaviour: the same table is reachable under several keys, so the test is made on the table (unicodeCategories[name] == unicode.X)", 1)
+	p := c.P
+	syn := p.Pkg("syntax")
+	info := syn.TypesInfo
+	aliased := map[string]bool{}
+	for _, v := range unicode.CategoryAliases {
+		aliased[v] = true
+	}
+	n, examined := 0, 0
+	for _, fd := range p.FuncDecls(syn) {
+		if fd.Body == nil || p.IsTestFile(fd.Pos()) {
+			continue
+		}
+		name := core.DeclName(syn, fd)
+		ast.Inspect(fd.Body, func(x ast.Node) bool {
+			be, ok := x.(*ast.BinaryExpr)
+			if !ok || (be.Op != token.EQL && be.Op != token.NEQ) {
+				return true
+			}
+			for _, pair := range [][2]ast.Expr{{be.X, be.Y}, {be.Y, be.X}} {
+				tv, ok := info.Types[pair[1]]
+				if !ok || tv.Value == nil || tv.Value.Kind() != constant.String {
+					continue
+				}
+				lit := constant.StringVal(tv.Value)
+				if !aliased[lit] {
+					continue
+				}
+				if _, isLit := ast.Unparen(pair[0]).(*ast.BasicLit); isLit {
+					continue
+				}
+				examined++
+				n++
+				c.Visit(name)
+				c.Bad(fmt.Sprintf("%s / category decision #%d is made on the table, not on the name %q", name, n, lit), be.Pos(),
+					"`%s`: the category %q is also registered under its long alias, which canonicalUnicodeCatName returns unchanged; the test fails for that spelling and the two spellings behave differently", types.ExprString(be), lit)
+			}
+			return true
+		})
+	}
+	if n == 0 {
+		c.OK("syntax / no category decision by spelling", token.NoPos, "no comparison of a name with an aliased category literal")
 	}
 }
